@@ -1,8 +1,1242 @@
-//! engine `stream` (stub — to be written)
+//! engine `stream` — C20 / C04 / C05 / C01: the streaming encoder state machine
+//! (`brotli::enc::encode::BrotliEncoderStateStruct`: set_parameter, compress_stream,
+//! take_output, is_finished, has_more_output).
+//!
+//! `bvh stream <c20|c04|c05|c01|all> --tier … --seed … --out …`
+//!
+//! A *history* is a sequence of public-API calls on one fresh encoder (StandardAlloc):
+//!   `P:<id>:<value>`            set_parameter(id, value)
+//!   `C:<op>:<input>:<cap>`      compress_stream(op, next_in = input, available_out = cap)
+//!   `T:<size>`                  take_output(size)
+//! After every call the harness snapshots the public state fields.  With the
+//! `verif_stream_hook` of /repo every payload-encoder invocation made inside a call is
+//! recorded too (request + answer); those answers are what the Lean model replays
+//! (the payload encoder is an oracle there), everything else the model predicts
+//! (correspondence: `ops.txt` / `impl.txt`, format in lean/BV/Drive/Stream.lean).
+//!
+//! Search stage (real code alone), per sub-command:
+//!   c01  plans (params x input class x request list x output schedule) driven to FINISH:
+//!        every call true, no panic, finishes within a call bound, output decodes with both
+//!        decoders to the bytes fed in.
+//!   c04  plans with FLUSH / EMIT_METADATA at arbitrary positions: at every completed flush
+//!        the bytes so far decode (streaming decoder -> NeedsMoreInput(prefix)) to all input so
+//!        far, `prefix ++ 03` is a complete stream for both decoders (byte boundary), metadata
+//!        payload appears verbatim behind an independently parsed header.
+//!   c05  the same request list under different output schedules (caps 0/1/…/ample, push vs
+//!        take_output) gives identical bytes; for (quality >= 2 or catable) with size_hint set
+//!        also under different input chunkings.
+//!   c20  exhaustive call sequences (<= 4, reduced alphabet <= 5) + random longer ones against
+//!        a reference automaton of the documented contract (`Contract` below): return values,
+//!        params frozen, nothing consumed after finish, finished absorbing, refused calls
+//!        change nothing, request completion within a bound.
+//!
+//! non-trivial (rep.nontrivial) = a history with at least one compress_stream call that
+//! returned true and produced or consumed at least one byte.
+//!
+//! Corpus: /verif/corpus/stream/*.txt — one history per file: the token line as above
+//! (`#` lines are comments); they are replayed first under `c01`/`c20` rules (no panic, no
+//! refused contract-abiding call).
+use crate::dec;
+use crate::prng::Rng;
 use crate::util::*;
+use brotli::enc::encode::{
+    BrotliEncoderOperation, BrotliEncoderParameter, BrotliEncoderStateStruct, BrotliEncoderStreamState, IsFirst,
+};
+use brotli::enc::StandardAlloc;
+use std::cell::RefCell;
+use std::panic::{catch_unwind, AssertUnwindSafe};
+
+pub type Enc = BrotliEncoderStateStruct<StandardAlloc>;
+
+// ---------------------------------------------------------------------------------------------
+// hook events (payload-encoder invocations inside one call)
+// ---------------------------------------------------------------------------------------------
+#[derive(Clone, Debug, Default)]
+pub struct Ev {
+    pub site: u8,
+    pub is_last: bool,
+    pub force_flush: bool,
+    pub next_out_offset: u64,
+    pub input_pos: u64,
+    pub lf_before: u64,
+    pub lp_before: u64,
+    pub bytes: u64,
+    pub cb_before: u8,
+    pub result: bool,
+    pub inplace: bool,
+    pub out_size: u64,
+    pub cb_after: u8,
+    pub lf_after: u64,
+    pub lp_after: u64,
+}
+#[cfg(not(bv_stream_hook))]
+mod evhook {
+    use super::Ev;
+    pub const HAVE: bool = false;
+    pub fn take() -> Vec<Ev> { vec![] }
+}
+#[cfg(bv_stream_hook)]
+mod evhook {
+    use super::Ev;
+    pub const HAVE: bool = true;
+    pub fn take() -> Vec<Ev> {
+        brotli::enc::encode::verif_stream_hook::take().into_iter().map(|e| Ev {
+            site: e.site, is_last: e.is_last, force_flush: e.force_flush, next_out_offset: e.next_out_offset, input_pos: e.input_pos,
+            lf_before: e.last_flush_pos_before, lp_before: e.last_processed_pos_before, bytes: e.bytes, cb_before: e.carry_bits_before,
+            result: e.result, inplace: e.inplace, out_size: e.out_size, cb_after: e.carry_bits_after, lf_after: e.last_flush_pos_after, lp_after: e.last_processed_pos_after,
+        }).collect()
+    }
+}
+
+// ---------------------------------------------------------------------------------------------
+// panic capture
+// ---------------------------------------------------------------------------------------------
+thread_local! { static LAST_PANIC: RefCell<String> = RefCell::new(String::new()); }
+fn install_panic_hook() {
+    std::panic::set_hook(Box::new(|info| {
+        let loc = info.location().map(|l| format!("{}:{}", l.file().rsplit('/').next().unwrap_or("?"), l.line())).unwrap_or_else(|| "?".into());
+        let msg = if let Some(s) = info.payload().downcast_ref::<&str>() { s.to_string() } else if let Some(s) = info.payload().downcast_ref::<String>() { s.clone() } else { "?".into() };
+        LAST_PANIC.with(|p| *p.borrow_mut() = format!("{} {}", loc, msg));
+    }));
+}
+fn last_panic() -> String { LAST_PANIC.with(|p| p.borrow().clone()) }
+
+// ---------------------------------------------------------------------------------------------
+// session = one encoder + the recorded history
+// ---------------------------------------------------------------------------------------------
+pub const OP_PROCESS: u8 = 0;
+pub const OP_FLUSH: u8 = 1;
+pub const OP_FINISH: u8 = 2;
+pub const OP_METADATA: u8 = 3;
+fn op_of(o: u8) -> BrotliEncoderOperation {
+    match o {
+        0 => BrotliEncoderOperation::BROTLI_OPERATION_PROCESS,
+        1 => BrotliEncoderOperation::BROTLI_OPERATION_FLUSH,
+        2 => BrotliEncoderOperation::BROTLI_OPERATION_FINISH,
+        _ => BrotliEncoderOperation::BROTLI_OPERATION_EMIT_METADATA,
+    }
+}
+/// numeric parameter id -> enum (None = not a constructible id of interest)
+pub fn param_of(id: u32) -> Option<BrotliEncoderParameter> {
+    use BrotliEncoderParameter::*;
+    Some(match id {
+        0 => BROTLI_PARAM_MODE,
+        1 => BROTLI_PARAM_QUALITY,
+        2 => BROTLI_PARAM_LGWIN,
+        3 => BROTLI_PARAM_LGBLOCK,
+        4 => BROTLI_PARAM_DISABLE_LITERAL_CONTEXT_MODELING,
+        5 => BROTLI_PARAM_SIZE_HINT,
+        6 => BROTLI_PARAM_LARGE_WINDOW,
+        7 => UNUSED7,
+        150 => BROTLI_PARAM_Q9_5,
+        154 => BROTLI_PARAM_LITERAL_BYTE_SCORE,
+        166 => BROTLI_PARAM_AVOID_DISTANCE_PREFIX_SEARCH,
+        167 => BROTLI_PARAM_CATABLE,
+        168 => BROTLI_PARAM_APPENDABLE,
+        169 => BROTLI_PARAM_MAGIC_NUMBER,
+        170 => BROTLI_PARAM_NO_DICTIONARY,
+        171 => BROTLI_PARAM_FAVOR_EFFICIENCY,
+        _ => return None,
+    })
+}
+
+#[derive(Clone, Debug, PartialEq, Default)]
+pub struct Snap {
+    pub st: i32,
+    pub ip: u64,
+    pub lf: u64,
+    pub lp: u64,
+    pub lb: u16,
+    pub lbb: u8,
+    pub ao: usize,
+    pub rm: u32,
+    pub le: bool,
+    pub init: bool,
+    pub to: u64,
+    pub fm: u8,
+    pub q: i32,
+    pub w: i32,
+    pub b: i32,
+    pub hint: usize,
+    pub cat: bool,
+    pub app: bool,
+    pub magic: bool,
+    pub lw: bool,
+    pub mode: i32,
+    pub dlcm: i32,
+    pub lbs: i32,
+    pub q95: bool,
+    pub usedict: bool,
+    pub rpos: u32,
+    pub rcur: u32,
+    pub fin: bool,
+    pub more: bool,
+}
+pub fn snap(e: &Enc) -> Snap {
+    Snap {
+        st: e.stream_state_ as i32,
+        ip: e.input_pos_,
+        lf: e.last_flush_pos_,
+        lp: e.last_processed_pos_,
+        lb: e.last_bytes_,
+        lbb: e.last_bytes_bits_,
+        ao: e.available_out_,
+        rm: e.remaining_metadata_bytes_,
+        le: e.is_last_block_emitted_,
+        init: e.is_initialized_,
+        to: e.total_out_,
+        fm: match e.is_first_mb { IsFirst::NothingWritten => 0, IsFirst::HeaderWritten => 1, IsFirst::FirstCatableByteWritten => 2, IsFirst::BothCatableBytesWritten => 3 },
+        q: e.params.quality,
+        w: e.params.lgwin,
+        b: e.params.lgblock,
+        hint: e.params.size_hint,
+        cat: e.params.catable,
+        app: e.params.appendable,
+        magic: e.params.magic_number,
+        lw: e.params.large_window,
+        mode: e.params.mode as i32,
+        dlcm: e.params.disable_literal_context_modeling,
+        lbs: e.params.hasher.literal_byte_score,
+        q95: e.params.q9_5,
+        usedict: e.params.use_dictionary,
+        rpos: e.ringbuffer_.pos_,
+        rcur: e.ringbuffer_.cur_size_,
+        fin: e.is_finished(),
+        more: e.has_more_output(),
+    }
+}
+impl Snap {
+    /// digest printed in the correspondence answer (`full` adds the carry value)
+    pub fn digest(&self, full: bool) -> String {
+        let b = |x: bool| if x { 1 } else { 0 };
+        format!(
+            "{},{},{},{},{},{},{},{},{},{},{},{},{},{},{},{},{},{},{},{},{},{},{},{},{},{}",
+            self.st, self.ip, self.lf, self.lp, if full { self.lb as i64 } else { -1 }, self.lbb, self.ao, self.rm, b(self.le), b(self.init), self.to, self.fm,
+            self.q, self.w, self.b, self.hint, b(self.cat), b(self.app), b(self.magic), b(self.lw), self.mode, self.dlcm, b(self.usedict), self.rpos, self.rcur, b(self.fin) * 2 + b(self.more)
+        )
+    }
+    /// everything a refused call must leave alone (size_hint excepted: update_size_hint(0)
+    /// runs before the metadata checks — recorded quirk)
+    pub fn same_but_hint(&self, o: &Snap) -> bool {
+        let mut a = self.clone();
+        a.hint = o.hint;
+        a == *o
+    }
+}
+
+#[derive(Clone, Debug)]
+pub enum Call {
+    Set(u32, u32),
+    Stream { op: u8, data: Vec<u8>, cap: usize },
+    Take(usize),
+}
+impl Call {
+    pub fn token(&self) -> String {
+        match self {
+            Call::Set(i, v) => format!("P:{}:{}", i, v),
+            Call::Stream { op, data, cap } => format!("C:{}:{}:{}", op, hex(data), cap),
+            Call::Take(n) => format!("T:{}", n),
+        }
+    }
+    pub fn parse(t: &str) -> Option<Call> {
+        let f: Vec<&str> = t.split(':').collect();
+        match f.as_slice() {
+            ["P", i, v] => Some(Call::Set(i.parse().ok()?, v.parse().ok()?)),
+            ["C", o, d, c] => Some(Call::Stream { op: o.parse().ok()?, data: unhex(d), cap: c.parse().ok()? }),
+            ["T", n] => Some(Call::Take(n.parse().ok()?)),
+            _ => None,
+        }
+    }
+}
+#[derive(Clone, Debug)]
+pub struct Rec {
+    pub call: Call,
+    pub before: Snap,
+    pub ret: bool,
+    pub consumed: usize,
+    pub produced: Vec<u8>,
+    pub after: Snap,
+    pub events: Vec<Ev>,
+    pub panicked: bool,
+}
+pub struct Session {
+    pub enc: Enc,
+    pub recs: Vec<Rec>,
+    pub delivered: Vec<u8>,
+    pub dead: Option<String>, // panic message
+    pub record: bool,
+}
+impl Session {
+    pub fn new() -> Self {
+        Session { enc: Enc::new(StandardAlloc::default()), recs: vec![], delivered: vec![], dead: None, record: true }
+    }
+    fn push(&mut self, r: Rec) {
+        if self.record { self.recs.push(r); }
+    }
+    pub fn set(&mut self, id: u32, val: u32) -> bool {
+        let before = snap(&self.enc);
+        let p = match param_of(id) { Some(p) => p, None => return false };
+        let ret = self.enc.set_parameter(p, val);
+        let after = snap(&self.enc);
+        self.push(Rec { call: Call::Set(id, val), before, ret, consumed: 0, produced: vec![], after, events: vec![], panicked: false });
+        ret
+    }
+    /// one compress_stream call; returns (ret, consumed, produced)
+    pub fn stream(&mut self, op: u8, data: &[u8], cap: usize) -> (bool, usize, usize) {
+        if self.dead.is_some() { return (false, 0, 0); }
+        let before = snap(&self.enc);
+        let mut avail_in = data.len();
+        let mut in_off = 0usize;
+        let mut buf = vec![0xa5u8; cap];
+        let mut avail_out = cap;
+        let mut out_off = 0usize;
+        let mut total: Option<usize> = None;
+        let _ = evhook::take();
+        let enc = &mut self.enc;
+        let r = catch_unwind(AssertUnwindSafe(|| {
+            let mut cb = |_: &mut brotli::interface::PredictionModeContextMap<brotli::InputReferenceMut>, _: &mut [brotli::interface::StaticCommand], _: brotli::interface::InputPair, _: &mut StandardAlloc| ();
+            enc.compress_stream(op_of(op), &mut avail_in, data, &mut in_off, &mut avail_out, &mut buf, &mut out_off, &mut total, &mut cb)
+        }));
+        let events = evhook::take();
+        let call = Call::Stream { op, data: data.to_vec(), cap };
+        match r {
+            Err(_) => {
+                self.dead = Some(last_panic());
+                self.push(Rec { call, before: before.clone(), ret: false, consumed: 0, produced: vec![], after: before, events, panicked: true });
+                (false, 0, 0)
+            }
+            Ok(ret) => {
+                let out_off = out_off.min(cap);
+                let produced = buf[..out_off].to_vec();
+                self.delivered.extend_from_slice(&produced);
+                let after = snap(&self.enc);
+                self.push(Rec { call, before, ret, consumed: in_off, produced, after, events, panicked: false });
+                (ret, in_off, out_off)
+            }
+        }
+    }
+    pub fn take(&mut self, size: usize) -> usize {
+        if self.dead.is_some() { return 0; }
+        let before = snap(&self.enc);
+        let enc = &mut self.enc;
+        let r = catch_unwind(AssertUnwindSafe(|| {
+            let mut sz = size;
+            let s = enc.take_output(&mut sz);
+            s[..sz].to_vec()
+        }));
+        match r {
+            Err(_) => {
+                self.dead = Some(last_panic());
+                self.push(Rec { call: Call::Take(size), before: before.clone(), ret: false, consumed: 0, produced: vec![], after: before, events: vec![], panicked: true });
+                0
+            }
+            Ok(v) => {
+                self.delivered.extend_from_slice(&v);
+                let after = snap(&self.enc);
+                let n = v.len();
+                self.push(Rec { call: Call::Take(size), before, ret: true, consumed: 0, produced: v, after, events: vec![], panicked: false });
+                n
+            }
+        }
+    }
+    pub fn history_line(&self) -> String {
+        self.recs.iter().map(|r| r.call.token()).collect::<Vec<_>>().join(" ")
+    }
+}
+
+// ---------------------------------------------------------------------------------------------
+// parameters
+// ---------------------------------------------------------------------------------------------
+#[derive(Clone, Debug, Default)]
+pub struct Cfg {
+    pub sets: Vec<(u32, u32)>,
+    // the effective values the generator aimed at (for budgeting; the encoder's own sanitised
+    // values are read back from the state)
+    pub q: i32,
+    pub lgwin: i32,
+    pub large: bool,
+    pub catable: bool,
+    pub hint_exact: bool, // size_hint will be patched to the real total input length
+}
+fn eff_quality(v: u32) -> i32 { (v as i32).clamp(0, 11) }
+fn eff_lgwin(v: u32, large: bool) -> i32 {
+    let x = v as i32;
+    if x < 10 { 10 } else if x > 24 { if large { x.min(30) } else { 24 } } else { x }
+}
+/// `heavy`: allow the sparse expensive corner (lgwin >= 19, q10/11) in this draw
+pub fn gen_cfg(rng: &mut Rng, heavy: bool) -> Cfg {
+    let mut c = Cfg::default();
+    let mut qv: u32 = match rng.below(16) {
+        0 => 0, 1 => 1, 2 => 2, 3 => 3, 4 => 4, 5 => 5, 6 => 6, 7 => 7, 8 => 8, 9 => 9,
+        10 => if heavy { 10 } else { 5 },
+        11 => if heavy { 11 } else { 2 },
+        12 => *rng.pick(&[12u32, 100, 0x7fff_ffff, 0xffff_ffff, 0x8000_0000]), // clamped
+        13 => 0, 14 => 1, _ => 9,
+    };
+    let large = rng.chance(1, 10);
+    let mut wv: u32 = match rng.below(20) {
+        0..=11 => rng.range(10, 18) as u32,
+        12 | 13 => rng.range(16, 18) as u32,
+        14 => if heavy { rng.range(19, 22) as u32 } else { rng.range(10, 16) as u32 },
+        15 => *rng.pick(&[0u32, 9, 1, 0xffff_ffff]), // clamped to 10
+        16 => if heavy && rng.chance(1, 4) { if large { rng.range(25, 26) as u32 } else { *rng.pick(&[23u32, 24, 25, 31, 100]) } } else { 17 },
+        _ => rng.range(10, 14) as u32,
+    };
+    // budget: the binary-tree hasher (q10/11 without q9_5) allocates 8 bytes per window position
+    if eff_quality(qv) >= 10 && eff_lgwin(wv, large) > 18 { wv = rng.range(10, 18) as u32; }
+    if eff_lgwin(wv, large) >= 23 && eff_quality(qv) > 9 { qv = 5; }
+    c.q = eff_quality(qv);
+    c.lgwin = eff_lgwin(wv, large);
+    c.large = large;
+    // order of the set_parameter calls is shuffled a little: large_window before/after lgwin
+    if large && rng.chance(1, 2) { c.sets.push((6, 1)); }
+    c.sets.push((1, qv));
+    c.sets.push((2, wv));
+    if large && !c.sets.iter().any(|s| s.0 == 6) { c.sets.push((6, 1)); }
+    if rng.chance(1, 3) {
+        let bv = match rng.below(10) { 0..=3 => rng.range(16, 18) as u32, 4 => rng.range(19, 20) as u32, 5 => if heavy { rng.range(21, 24) as u32 } else { 16 }, 6 => *rng.pick(&[1u32, 15, 25, 30, 0xffff_ffff]), _ => 0 };
+        c.sets.push((3, bv));
+    }
+    if rng.chance(1, 2) { c.sets.push((0, *rng.pick(&[0u32, 1, 2, 2, 3, 4, 5, 6, 7]))); }
+    if rng.chance(1, 6) { c.sets.push((150, 1)); }
+    if rng.chance(1, 5) { c.sets.push((4, *rng.pick(&[0u32, 1, 1, 2]))); }
+    if rng.chance(1, 6) { c.sets.push((154, *rng.pick(&[0u32, 340, 540, 1, 60000]))); }
+    if rng.chance(1, 5) { c.sets.push((168, 1)); }
+    if rng.chance(1, 4) { c.sets.push((167, 1)); c.catable = true; }
+    if rng.chance(1, 5) { c.sets.push((169, 1)); }
+    if rng.chance(1, 8) { c.sets.push((166, 1)); }
+    if rng.chance(1, 12) { c.sets.push((170, 1)); } // NO_DICTIONARY: not handled by set_parameter (returns false)
+    if rng.chance(1, 16) { c.sets.push((7, 3)); } // unknown id: false
+    match rng.below(6) {
+        0 | 1 => c.hint_exact = true,
+        2 => c.sets.push((5, *rng.pick(&[1u32, 100, 1 << 20, 0xffff_ffff]))),
+        _ => {}
+    }
+    c
+}
+/// a light fixed configuration (for c20 / pairs)
+pub fn simple_cfg(q: u32, lgwin: u32, catable: bool, magic: bool, hint: u32) -> Cfg {
+    let mut c = Cfg { q: q as i32, lgwin: lgwin as i32, catable, ..Cfg::default() };
+    c.sets.push((1, q));
+    c.sets.push((2, lgwin));
+    if catable { c.sets.push((167, 1)); }
+    if magic { c.sets.push((169, 1)); }
+    if hint != 0 { c.sets.push((5, hint)); }
+    c
+}
+
+// ---------------------------------------------------------------------------------------------
+// inputs
+// ---------------------------------------------------------------------------------------------
+pub fn gen_bytes(rng: &mut Rng, n: usize, style: u64) -> Vec<u8> {
+    let mut v = Vec::with_capacity(n + 16);
+    let words: [&[u8]; 8] = [b"the ", b"quick ", b"brown ", b"fox ", b"<div class=\"", b"0123456789", b"compression ", b"\n"];
+    let run_byte = rng.next() as u8;
+    while v.len() < n {
+        match style {
+            0 => v.push(rng.next() as u8),                                   // random / incompressible
+            1 => v.push(b'a' + (rng.below(3) as u8)),                        // skewed tiny alphabet
+            2 => { let wd: &[u8] = words[rng.below(8) as usize]; v.extend_from_slice(wd) } // text-like
+            3 => v.push(run_byte),                                           // one long run
+            4 => { let i = v.len(); v.push(((i * 7 + (i >> 3) * 13) % 251) as u8) }
+            5 => { if rng.chance(1, 8) || v.len() < 8 { v.push(rng.next() as u8) } else { let d = rng.range(1, v.len().min(64) as u64) as usize; let b = v[v.len() - d]; v.push(b) } }
+            6 => { let b = if rng.chance(9, 10) { 0 } else { rng.next() as u8 }; v.push(b) }   // skewed to zero
+            _ => { let l = rng.range(1, 40) as usize; let b = rng.next() as u8; for _ in 0..l { v.push(b) } } // runs
+        }
+    }
+    v.truncate(n);
+    v
+}
+pub fn gen_len(rng: &mut Rng, max: usize) -> usize {
+    match rng.below(12) {
+        0 => 0,
+        1 => rng.range(1, 3) as usize,
+        2 | 3 => rng.range(4, 64) as usize,
+        4..=6 => rng.range(65, 1500.min(max as u64)) as usize,
+        7 | 8 => rng.range(1500.min(max as u64), 20000.min(max as u64)) as usize,
+        9 => { let b = 1usize << rng.range(10, 16); (b + rng.below(5) as usize).saturating_sub(rng.below(3) as usize).min(max) } // around block sizes
+        _ => rng.range(0, max as u64) as usize,
+    }
+}
+
+// ---------------------------------------------------------------------------------------------
+// plans: request lists driven to completion under an output schedule
+// ---------------------------------------------------------------------------------------------
+#[derive(Clone, Debug)]
+pub struct Req { pub op: u8, pub data: Vec<u8> }
+#[derive(Clone, Debug)]
+pub struct OutSched { pub caps: Vec<usize>, pub take_every: usize, pub take_sizes: Vec<usize> }
+impl OutSched {
+    pub fn ample() -> Self { OutSched { caps: vec![1 << 22], take_every: 0, take_sizes: vec![0] } }
+    pub fn desc(&self) -> String { format!("caps={:?} take_every={} take_sizes={:?}", self.caps, self.take_every, self.take_sizes) }
+}
+pub fn gen_sched(rng: &mut Rng) -> OutSched {
+    let n = rng.range(1, 4) as usize;
+    let kind = rng.below(8);
+    let caps: Vec<usize> = (0..n).map(|_| match kind {
+        0 => 1,
+        1 => *rng.pick(&[0usize, 1, 1, 2]),
+        2 => rng.range(1, 17) as usize,
+        3 => rng.range(0, 600) as usize,
+        4 => *rng.pick(&[0usize, 1, 16, 503, 504, 4096, 70000]),
+        5 => 1 << 22,
+        6 => rng.range(500, 9000) as usize,
+        _ => *rng.pick(&[1usize, 3, 1 << 16, 1 << 22]),
+    }).collect();
+    let mut caps = caps;
+    let take_every = match rng.below(4) { 0 => 0, 1 => 1, 2 => 2, _ => rng.range(2, 5) as usize };
+    if caps.iter().all(|c| *c == 0) && take_every == 0 { caps.push(1); }
+    let take_sizes = (0..rng.range(1, 3)).map(|_| *rng.pick(&[0usize, 0, 1, 2, 15, 16, 17, 100, 5000])).collect();
+    OutSched { caps, take_every, take_sizes }
+}
+#[derive(Clone, Debug, Default)]
+pub struct Mark { pub kind: u8, pub out_len: usize, pub in_len: usize, pub md_len: usize, pub md: Vec<u8> } // kind: 1 flush complete, 3 metadata complete
+pub struct RunOut {
+    pub sess: Session,
+    pub fed: Vec<u8>,        // bytes accepted from non-metadata requests
+    pub marks: Vec<Mark>,
+    pub fail: Option<(String, String)>, // (signature, what)
+    pub finished: bool,
+    pub ncalls: usize,
+}
+fn abstract_done(s: &Snap, op: u8) -> bool {
+    match op {
+        OP_PROCESS => true,
+        OP_FLUSH => !s.more && s.st == 0,
+        OP_FINISH => s.fin,
+        _ => !s.more && s.rm == u32::MAX && s.st == 0,
+    }
+}
+/// drive every request to completion; `contract` = the caller keeps the documented contract,
+/// so a `false` return is a violation
+pub fn drive(cfg: &Cfg, reqs: &[Req], sched: &OutSched, record: bool) -> RunOut {
+    let mut sess = Session::new();
+    sess.record = record;
+    let total_in: usize = reqs.iter().filter(|r| r.op != OP_METADATA).map(|r| r.data.len()).sum();
+    for (id, v) in &cfg.sets { sess.set(*id, *v); }
+    if cfg.hint_exact { sess.set(5, total_in as u32); }
+    let mut out = RunOut { sess, fed: vec![], marks: vec![], fail: None, finished: false, ncalls: 0 };
+    let mut k = 0usize;
+    for rq in reqs {
+        let mut pos = 0usize;
+        let mut idle = 0usize;
+        let bound = 1000 + 40 * (rq.data.len() + out.sess.enc.available_out_ + 16);
+        let mut calls_here = 0usize;
+        loop {
+            k += 1;
+            calls_here += 1;
+            out.ncalls += 1;
+            if calls_here > bound { out.fail = Some(("stream:livelock".into(), format!("request op={} not complete after {} calls", rq.op, calls_here))); return out; }
+            let cap = sched.caps[k % sched.caps.len()];
+            let (ret, consumed, produced) = out.sess.stream(rq.op, &rq.data[pos..], cap);
+            if let Some(p) = &out.sess.dead {
+                let loc = p.split(' ').next().unwrap_or("?").to_string();
+                out.fail = Some((format!("stream:panic:{}", loc), format!("panic in compress_stream(op={}, in={}, cap={}): {}", rq.op, rq.data.len() - pos, cap, p)));
+                return out;
+            }
+            if !ret { out.fail = Some((format!("stream:refused:op{}", rq.op), format!("contract-abiding call refused: op={} in={} cap={} state {:?}", rq.op, rq.data.len() - pos, cap, out.sess.enc.stream_state_ as i32))); return out; }
+            if consumed > rq.data.len() - pos || produced > cap { out.fail = Some(("stream:cursor".into(), format!("consumed {} of {}, produced {} of {}", consumed, rq.data.len() - pos, produced, cap))); return out; }
+            if rq.op != OP_METADATA { out.fed.extend_from_slice(&rq.data[pos..pos + consumed]); }
+            pos += consumed;
+            let mut took = 0usize;
+            if sched.take_every != 0 && k % sched.take_every == 0 {
+                took = out.sess.take(sched.take_sizes[k % sched.take_sizes.len()]);
+                out.ncalls += 1;
+                if let Some(p) = &out.sess.dead {
+                    out.fail = Some((format!("stream:panic:{}", p.split(' ').next().unwrap_or("?")), format!("panic in take_output: {}", p)));
+                    return out;
+                }
+            }
+            let s = snap(&out.sess.enc);
+            if pos == rq.data.len() && abstract_done(&s, rq.op) {
+                if rq.op == OP_FLUSH { out.marks.push(Mark { kind: 1, out_len: out.sess.delivered.len(), in_len: out.fed.len(), md_len: 0, md: vec![] }); }
+                if rq.op == OP_METADATA { out.marks.push(Mark { kind: 3, out_len: out.sess.delivered.len(), in_len: out.fed.len(), md_len: rq.data.len(), md: rq.data.clone() }); }
+                break;
+            }
+            // progress accounting: with room (cap >= 1 or a take) something must move
+            if consumed == 0 && produced == 0 && took == 0 { if cap > 0 { idle += 1; } } else { idle = 0; }
+            if idle > 4 { out.fail = Some(("stream:livelock".into(), format!("no progress in 5 consecutive calls with output room (op={}, in left {}, state {})", rq.op, rq.data.len() - pos, s.st))); return out; }
+        }
+    }
+    out.finished = snap(&out.sess.enc).fin;
+    out
+}
+
+// independent LSB-first bit reader for the framing checks
+fn get_bits(b: &[u8], pos: usize, n: usize) -> Option<u64> {
+    let mut v = 0u64;
+    for i in 0..n {
+        let p = pos + i;
+        if p / 8 >= b.len() { return None; }
+        v |= (((b[p / 8] >> (p % 8)) & 1) as u64) << i;
+    }
+    Some(v)
+}
+/// RFC 7932 9.2 metadata meta-block header ending exactly at byte `end` of `b` (the payload of
+/// `len` bytes starts there): is there a start bit offset such that the bits read
+/// ISLAST=0, MNIBBLES=11, reserved 0, MSKIPBYTES, MSKIPLEN-1, zero padding?
+fn metadata_header_ok(b: &[u8], end: usize, len: usize) -> bool {
+    let nbytes: usize = if len == 0 { 0 } else { let v = len - 1; if v == 0 { 0 } else { ((64 - (v as u64).leading_zeros() as usize) + 7) / 8 } };
+    let hdr_bits = 6 + 8 * nbytes;
+    let end_bit = end * 8;
+    for pad in 0..8usize {
+        if end_bit < hdr_bits + pad { continue; }
+        let s = end_bit - hdr_bits - pad;
+        let ok = get_bits(b, s, 1) == Some(0)
+            && get_bits(b, s + 1, 2) == Some(3)
+            && get_bits(b, s + 3, 1) == Some(0)
+            && get_bits(b, s + 4, 2) == Some(nbytes as u64)
+            && (nbytes == 0 || get_bits(b, s + 6, 8 * nbytes) == Some((len - 1) as u64))
+            && get_bits(b, s + hdr_bits, pad) == Some(0);
+        // RFC: the MSKIPLEN-1 value must use its last byte (no over-long encodings)
+        let minimal = nbytes <= 1 || ((len - 1) >> (8 * (nbytes - 1))) != 0;
+        if ok && minimal { return true; }
+    }
+    false
+}
+
+fn case_json(cfg: &Cfg, sess: &Session, extra: &str) -> String {
+    let line = sess.history_line();
+    let line = if line.len() > 6000 { format!("{}…({} chars)", &line[..6000], line.len()) } else { line };
+    format!("{{\"cfg\": {}, \"history\": {}, \"extra\": {}}}", jstr(&format!("{:?}", cfg.sets)), jstr(&line), jstr(extra))
+}
+
+// ---------------------------------------------------------------------------------------------
+// request-list generator
+// ---------------------------------------------------------------------------------------------
+pub fn gen_reqs(rng: &mut Rng, total: usize, style: u64, with_flush: bool, with_md: bool, end_finish: bool) -> Vec<Req> {
+    let data = gen_bytes(rng, total, style);
+    let mut reqs = vec![];
+    let mut pos = 0usize;
+    let chunk_kind = rng.below(6);
+    loop {
+        let left = total - pos;
+        let n = match chunk_kind {
+            0 => left,
+            1 => rng.range(1, 3) as usize,
+            2 => rng.range(1, 100) as usize,
+            3 => rng.range(1, 5000) as usize,
+            4 => *rng.pick(&[1usize, 1024, 16384, 16383, 16385, 65536, 65535, 4096]),
+            _ => rng.range(0, (left as u64).max(1)) as usize,
+        }.min(left);
+        if with_md && rng.chance(1, 6) {
+            let ml = *rng.pick(&[0usize, 1, 2, 15, 16, 17, 32, 33, 255, 256, 257, 1000, 65535, 65536, 65537]);
+            let ml = if ml > 2000 && !rng.chance(1, 6) { 48 } else { ml };
+            let md = gen_bytes(rng, ml, 0);
+            reqs.push(Req { op: OP_METADATA, data: md });
+        }
+        let op = if with_flush && rng.chance(1, 4) { OP_FLUSH } else { OP_PROCESS };
+        if left == 0 { break; }
+        if n == 0 && op == OP_PROCESS { if rng.chance(1, 2) { reqs.push(Req { op, data: vec![] }); } if reqs.len() > 400 { reqs.push(Req { op: OP_PROCESS, data: data[pos..].to_vec() }); break; } continue; }
+        reqs.push(Req { op, data: data[pos..pos + n].to_vec() });
+        pos += n;
+        if reqs.len() > 400 { reqs.push(Req { op: OP_PROCESS, data: data[pos..].to_vec() }); break; }
+    }
+    if with_flush && rng.chance(1, 3) { reqs.push(Req { op: OP_FLUSH, data: vec![] }); }
+    if with_md && rng.chance(1, 8) { reqs.push(Req { op: OP_METADATA, data: gen_bytes(rng, 20, 0) }); }
+    if end_finish {
+        // fold the tail into the FINISH request sometimes
+        if rng.chance(1, 2) {
+            if let Some(last) = reqs.last() { if last.op == OP_PROCESS { let l = reqs.pop().unwrap(); reqs.push(Req { op: OP_FINISH, data: l.data }); return reqs; } }
+        }
+        reqs.push(Req { op: OP_FINISH, data: vec![] });
+    }
+    reqs
+}
+fn max_input_for(cfg: &Cfg, rng: &mut Rng, thorough: bool) -> usize {
+    if cfg.q >= 10 { return 6000; }
+    let base = if thorough { 200_000 } else { 66_000 };
+    // longer than the ring buffer for small windows now and then
+    if cfg.lgwin <= 12 && cfg.q >= 2 && rng.chance(1, 6) { return base; }
+    if rng.chance(1, 5) { base } else { 20_000 }
+}
+
+// ---------------------------------------------------------------------------------------------
+// c01 / c04 oracles on one driven plan
+// ---------------------------------------------------------------------------------------------
+fn judge_plan(cfg: &Cfg, ro: &RunOut, rep: &mut Report, c01: bool, c04: bool) {
+    rep.evaluations += 1;
+    if let Some((sig, what)) = &ro.fail {
+        rep.violation(sig, what, case_json(cfg, &ro.sess, ""));
+        return;
+    }
+    let s = snap(&ro.sess.enc);
+    let large = s.lw;
+    if ro.sess.recs.iter().any(|r| matches!(r.call, Call::Stream { .. }) && r.ret && (r.consumed > 0 || !r.produced.is_empty())) || !ro.sess.record { rep.nontrivial += 1; }
+    rep.count(&format!("q{}", s.q));
+    rep.count(&format!("lgwin{}", s.w));
+    rep.count(&format!("lgblock{}", s.b));
+    if s.cat { rep.count("catable"); }
+    if s.magic { rep.count("magic"); }
+    if s.lw { rep.count("large_window"); }
+    rep.count(&format!("mode{}", s.mode));
+    if s.ip > (1u64 << (1 + s.w.max(s.b))) { rep.count("input_exceeds_ring"); }
+    if c01 {
+        if !ro.finished {
+            rep.violation("stream:not-finished", "FINISH request completed but is_finished() is false", case_json(cfg, &ro.sess, ""));
+            return;
+        }
+        rep.add("bytes_in", ro.fed.len() as u64);
+        rep.add("bytes_out", ro.sess.delivered.len() as u64);
+        if let Err(e) = dec::decode_both(&ro.sess.delivered, large, &ro.fed) {
+            rep.violation("stream:roundtrip", &e, case_json(cfg, &ro.sess, &format!("in={} out={}", ro.fed.len(), ro.sess.delivered.len())));
+            return;
+        }
+        rep.count("roundtrip_ok");
+    }
+    if c04 {
+        for m in &ro.marks {
+            let prefix = &ro.sess.delivered[..m.out_len];
+            let expect = &ro.fed[..m.in_len];
+            if m.kind == 3 {
+                rep.count("metadata_complete");
+                rep.count(&format!("metadata_len_class_{}", if m.md_len == 0 { "0".into() } else if m.md_len <= 16 { "1-16".to_string() } else if m.md_len <= 256 { "17-256".into() } else if m.md_len <= 65536 { "257-65536".into() } else { ">65536".into() }));
+                // payload verbatim at the end of what has been delivered, behind a well-formed header
+                let rq_payload = &m.md;
+                if m.out_len < m.md_len || prefix[m.out_len - m.md_len..] != rq_payload[..] {
+                    rep.violation("stream:metadata-verbatim", "metadata payload is not the tail of the delivered bytes at completion", case_json(cfg, &ro.sess, &format!("len={}", m.md_len)));
+                    return;
+                }
+                if !metadata_header_ok(prefix, m.out_len - m.md_len, m.md_len) {
+                    rep.violation("stream:metadata-header", "no well-formed RFC 7932 metadata header in front of the payload", case_json(cfg, &ro.sess, &format!("len={}", m.md_len)));
+                    return;
+                }
+            } else {
+                rep.count("flush_complete");
+                if m.in_len == 0 { rep.count("flush_complete.no_input_yet"); }
+            }
+            // both kinds leave the stream on a byte boundary with everything decodable
+            if !(large && crate::gdec::available()) {
+                match dec::decode(prefix, expect.len() + (1 << 16)) {
+                    dec::DResult::NeedsMoreInput(v) => {
+                        if v != expect {
+                            rep.violation("stream:flush-prefix", &format!("streaming decoder yields {} bytes from the flushed prefix, {} were supplied (first diff {})", v.len(), expect.len(), dec::first_diff(&v, expect)), case_json(cfg, &ro.sess, &format!("mark kind {} out_len {}", m.kind, m.out_len)));
+                            return;
+                        }
+                    }
+                    other => {
+                        rep.violation("stream:flush-prefix", &format!("streaming decoder on the flushed prefix: {:?}", match other { dec::DResult::Ok(v) => format!("Ok({})", v.len()), dec::DResult::Error(v) => format!("Error after {}", v.len()), _ => "TooBig".into() }), case_json(cfg, &ro.sess, &format!("mark kind {} out_len {}", m.kind, m.out_len)));
+                        return;
+                    }
+                }
+            }
+            // byte boundary: prefix ++ (ISLAST=1, ISLASTEMPTY=1) is a complete stream
+            let mut closed = prefix.to_vec();
+            closed.push(3);
+            if let Err(e) = dec::decode_both(&closed, large, expect) {
+                rep.violation("stream:flush-boundary", &format!("flushed prefix ++ 03 is not a complete stream of the input so far: {}", e), case_json(cfg, &ro.sess, &format!("mark kind {} out_len {}", m.kind, m.out_len)));
+                return;
+            }
+        }
+    }
+}
+// ---------------------------------------------------------------------------------------------
+// C20: reference automaton of the documented contract
+// ---------------------------------------------------------------------------------------------
+#[derive(Clone, Copy, Debug, PartialEq)]
+pub enum Contract { Fresh, Processing, Flushing, Finishing, Finished, Metadata(u32) }
+/// abstraction of the implementation state (public fields)
+pub fn alpha(s: &Snap) -> Contract {
+    if !s.init { return Contract::Fresh; }
+    if s.rm != u32::MAX { return Contract::Metadata(s.rm); }
+    match s.st {
+        1 => Contract::Flushing,
+        2 => if s.more { Contract::Finishing } else { Contract::Finished },
+        3 | 4 => Contract::Metadata(s.rm),
+        _ => Contract::Processing,
+    }
+}
+/// what the contract says about compress_stream(op, n bytes offered) in abstract state `a`:
+/// Some(true) accepted, Some(false) refused
+pub fn contract_accepts(a: Contract, op: u8, n: usize) -> bool {
+    match a {
+        Contract::Metadata(r) => op == OP_METADATA && n == r as usize,
+        _ if op == OP_METADATA => n <= (1 << 24) && matches!(a, Contract::Fresh | Contract::Processing),
+        Contract::Fresh | Contract::Processing => true,
+        Contract::Flushing | Contract::Finishing | Contract::Finished => n == 0,
+    }
+}
+/// allowed successor after an accepted call
+pub fn contract_succ_ok(a: Contract, op: u8, n: usize, consumed: usize, b: Contract) -> bool {
+    let a = if a == Contract::Fresh { Contract::Processing } else { a };
+    match (a, op) {
+        (Contract::Metadata(r), _) => match b { Contract::Metadata(r2) => r2 <= r && consumed == (r - r2) as usize, Contract::Processing => consumed == r as usize, _ => false },
+        (Contract::Processing, OP_METADATA) => match b { Contract::Metadata(r2) => r2 as usize <= n && consumed == n - r2 as usize, Contract::Processing => consumed == n, _ => false },
+        (Contract::Processing, OP_PROCESS) => b == Contract::Processing,
+        (Contract::Processing, OP_FLUSH) => b == Contract::Processing || (b == Contract::Flushing && consumed == n),
+        (Contract::Processing, OP_FINISH) => b == Contract::Processing || ((b == Contract::Finishing || b == Contract::Finished) && consumed == n),
+        (Contract::Flushing, _) => consumed == 0 && (b == Contract::Flushing || b == Contract::Processing),
+        (Contract::Finishing, _) => consumed == 0 && (b == Contract::Finishing || b == Contract::Finished),
+        (Contract::Finished, _) => consumed == 0 && b == Contract::Finished,
+        _ => false,
+    }
+}
+/// which (id, value) set_parameter must accept while Fresh
+pub fn param_table_accepts(id: u32, val: u32) -> bool {
+    match id {
+        0 | 1 | 2 | 3 | 5 | 6 | 150 | 154 | 166 | 167 | 168 | 169 | 171 => true,
+        4 => val <= 1,
+        _ => false,
+    }
+}
+/// check one recorded history against the contract; returns the first violation
+pub fn check_contract(recs: &[Rec]) -> Option<(String, String)> {
+    let mut finished_seen = false;
+    for (i, r) in recs.iter().enumerate() {
+        if r.panicked { return Some(("stream:c20:panic".into(), format!("call {} {} panicked", i, r.call.token().chars().take(60).collect::<String>()))); }
+        let a = alpha(&r.before);
+        let b = alpha(&r.after);
+        match &r.call {
+            Call::Set(id, val) => {
+                let expect = a == Contract::Fresh && param_table_accepts(*id, *val);
+                if r.ret != expect { return Some(("stream:c20:set-parameter-return".into(), format!("call {}: set_parameter({},{}) returned {} in {:?}", i, id, val, r.ret, a))); }
+                if !r.ret && r.before != r.after { return Some(("stream:c20:params-not-frozen".into(), format!("call {}: refused set_parameter({},{}) changed the state", i, id, val))); }
+                if b != a { return Some(("stream:c20:set-parameter-state".into(), format!("call {}: set_parameter moved {:?} -> {:?}", i, a, b))); }
+            }
+            Call::Stream { op, data, cap } => {
+                let acc = contract_accepts(a, *op, data.len());
+                if r.ret != acc { return Some((format!("stream:c20:return:{}", if acc { "refused-valid" } else { "accepted-violation" }), format!("call {}: compress_stream(op={}, in={}, cap={}) returned {} in {:?}", i, op, data.len(), cap, r.ret, a))); }
+                if !r.ret {
+                    if r.consumed != 0 || !r.produced.is_empty() { return Some(("stream:c20:violation-not-clean".into(), format!("call {}: refused call consumed {} / produced {}", i, r.consumed, r.produced.len()))); }
+                    let mut bf = r.before.clone();
+                    bf.init = true; // a refused first call still initialises (freezes the parameters)
+                    if a != Contract::Fresh && !bf.same_but_hint(&r.after) { return Some(("stream:c20:violation-not-clean".into(), format!("call {}: refused call changed the state: {:?} -> {:?}", i, r.before, r.after))); }
+                    if a == Contract::Fresh && (r.after.ip != 0 || r.after.ao != 0 || r.after.st != 0 || r.after.rm != u32::MAX) { return Some(("stream:c20:violation-not-clean".into(), format!("call {}: refused first call left a dirty state {:?}", i, r.after))); }
+                } else {
+                    if r.consumed > data.len() || r.produced.len() > *cap { return Some(("stream:c20:cursor".into(), format!("call {}: consumed {} of {}, produced {} of {}", i, r.consumed, data.len(), r.produced.len(), cap))); }
+                    if !contract_succ_ok(a, *op, data.len(), r.consumed, b) { return Some(("stream:c20:transition".into(), format!("call {}: compress_stream(op={}, in={}, cap={}) consumed {} and moved {:?} -> {:?}", i, op, data.len(), cap, r.consumed, a, b))); }
+                    if r.before.le && r.consumed != 0 { return Some(("stream:c20:input-after-finish".into(), format!("call {}: consumed {} bytes after the last block was emitted", i, r.consumed))); }
+                }
+                if r.after.fin && r.after.more { return Some(("stream:c20:finished-with-output".into(), format!("call {}: is_finished with pending output", i))); }
+            }
+            Call::Take(_) => {
+                let ok = match a {
+                    Contract::Flushing => b == Contract::Flushing || b == Contract::Processing,
+                    Contract::Finishing => b == Contract::Finishing || b == Contract::Finished,
+                    _ => a == b,
+                };
+                if !ok { return Some(("stream:c20:take-transition".into(), format!("call {}: take_output moved {:?} -> {:?}", i, a, b))); }
+                if r.produced.len() > r.before.ao { return Some(("stream:c20:cursor".into(), format!("call {}: take_output gave {} of {} pending", i, r.produced.len(), r.before.ao))); }
+            }
+        }
+        if finished_seen && !r.after.fin { return Some(("stream:c20:finished-not-absorbing".into(), format!("call {}: is_finished() went back to false", i))); }
+        if finished_seen && (r.consumed != 0 || !r.produced.is_empty()) { return Some(("stream:c20:finished-not-absorbing".into(), format!("call {}: consumed {} / produced {} after is_finished()", i, r.consumed, r.produced.len()))); }
+        if r.after.fin { finished_seen = true; }
+        if r.before.init && (r.before.q != r.after.q || r.before.w != r.after.w || r.before.b != r.after.b || r.before.cat != r.after.cat || r.before.app != r.after.app || r.before.magic != r.after.magic || r.before.lw != r.after.lw || r.before.mode != r.after.mode) {
+            return Some(("stream:c20:params-not-frozen".into(), format!("call {}: parameters changed after initialisation", i)));
+        }
+    }
+    None
+}
+/// `request_completes`: from the state at the end of `sess`, repeat (op, remaining input) with
+/// cap >= 1 until complete; the number of calls must stay within pending + in + 8
+fn check_completion(sess: &mut Session, op: u8, data: &[u8], cap: usize) -> Option<(String, String)> {
+    let s0 = snap(&sess.enc);
+    if !contract_accepts(alpha(&s0), op, data.len()) { return None; }
+    let mut pos = 0usize;
+    let mut calls = 0usize;
+    // every call with cap >= 1 must consume or produce at least one byte or complete
+    let bound = s0.ao + 2 * data.len() + 64 + (data.len() + s0.ao) * 3 / cap.max(1);
+    loop {
+        let op_now = op;
+        let (ret, consumed, produced) = sess.stream(op_now, &data[pos..], cap);
+        calls += 1;
+        if sess.dead.is_some() { return Some(("stream:c20:panic".into(), format!("panic while completing op {}: {}", op, sess.dead.clone().unwrap()))); }
+        if !ret { return Some(("stream:c20:return:refused-valid".into(), format!("repeat of accepted request op={} refused after {} calls", op, calls))); }
+        pos += consumed;
+        let s = snap(&sess.enc);
+        if pos == data.len() && abstract_done(&s, op) { return None; }
+        if consumed == 0 && produced == 0 { return Some(("stream:c20:no-progress".into(), format!("op={} cap={}: call {} neither consumed nor produced nor completed (state {}, pending {})", op, cap, calls, s.st, s.ao))); }
+        if calls > bound { return Some(("stream:c20:livelock".into(), format!("op={} cap={} not complete after {} calls", op, cap, calls))); }
+    }
+}
+
+// alphabet of the exhaustive stage
+#[derive(Clone, Copy, Debug)]
+pub enum Sym { Set(u32, u32), Str(u8, u8, u8), Take(u8) } // Str(op, input class 0/1, cap class 0/1/2)
+pub fn alphabet(full: bool) -> Vec<Sym> {
+    let mut v = vec![Sym::Set(5, 7)];
+    if full { v.push(Sym::Set(4, 2)); }
+    for op in 0..4u8 { for inp in 0..2u8 { for cap in 0..3u8 { if full || cap != 1 || op == OP_METADATA { v.push(Sym::Str(op, inp, cap)); } } } }
+    v.push(Sym::Take(0));
+    if full { v.push(Sym::Take(1)); }
+    v
+}
+fn sym_input(op: u8, class: u8, variant: usize) -> Vec<u8> {
+    if class == 0 { return vec![]; }
+    if op == OP_METADATA { return b"metadata-payload-xyz"[..if variant % 2 == 0 { 20 } else { 17 }].to_vec(); }
+    match variant % 3 { 0 => b"abcabcabcabd".to_vec(), 1 => b"Z".to_vec(), _ => (0..40u8).map(|i| i.wrapping_mul(37)).collect() }
+}
+fn sym_cap(c: u8) -> usize { match c { 0 => 0, 1 => 1, _ => 1 << 12 } }
+pub fn run_syms(cfg: &Cfg, syms: &[Sym], variant: usize) -> Session {
+    let mut s = Session::new();
+    for (id, v) in &cfg.sets { s.set(*id, *v); }
+    for sy in syms {
+        match *sy {
+            Sym::Set(i, v) => { s.set(i, v); }
+            Sym::Str(op, ic, cc) => { let d = sym_input(op, ic, variant); s.stream(op, &d, sym_cap(cc)); }
+            Sym::Take(k) => { s.take(k as usize); }
+        }
+        if s.dead.is_some() { break; }
+    }
+    s
+}
+
+// ---------------------------------------------------------------------------------------------
+// correspondence lines
+// ---------------------------------------------------------------------------------------------
+/// request line + implementation answer for a recorded history (None if the hook is missing
+/// and the history made a payload-encoder call, or the line would be too long)
+pub fn corr_line(sess: &Session, full: bool) -> Option<(String, String)> {
+    let mut ops = String::from(if full { "stream f" } else { "stream k" });
+    let mut ans: Vec<String> = vec![];
+    // global bit string of what was delivered (for slicing out the oracle's bits)
+    let all = &sess.delivered;
+    let mut delivered_before = 0usize;
+    for r in &sess.recs {
+        match &r.call {
+            Call::Set(i, v) => {
+                ops.push_str(&format!(" P:{}:{}", i, v));
+                ans.push(format!("{}:{}", r.ret as u8, r.after.digest(full)));
+            }
+            Call::Take(n) => {
+                ops.push_str(&format!(" T:{}", n));
+                ans.push(format!("{}:{}:{}", r.produced.len(), if full { hex(&r.produced) } else { "-".into() }, r.after.digest(full)));
+            }
+            Call::Stream { op, data, cap } => {
+                if !evhook::HAVE { return None; }
+                let mut tok = format!(" C:{}:{}:{}", op, if full { hex(data) } else { format!("#{}", data.len()) }, cap);
+                let mut reqs = String::new();
+                for (k, e) in r.events.iter().enumerate() {
+                    let nbits = (e.out_size * 8 + e.cb_after as u64) as i64 - e.cb_before as i64;
+                    if nbits < 0 { return None; }
+                    let start = (delivered_before as u64 + e.next_out_offset) * 8 + e.cb_before as u64;
+                    let emit = e.lf_after != e.lf_before || e.site == 2;
+                    let bits = if full {
+                        // pending bytes may not have been delivered by the end of the history
+                        let mut v = vec![0u8; ((nbits as usize) + 7) / 8];
+                        for j in 0..nbits as usize {
+                            let p = start as usize + j;
+                            if p / 8 >= all.len() { return None; }
+                            if (all[p / 8] >> (p % 8)) & 1 == 1 { v[j / 8] |= 1 << (j % 8); }
+                        }
+                        hex(&v)
+                    } else { "-".into() };
+                    tok.push_str(&format!("{}{}.{}.{}.{}", if k == 0 { ":" } else { "/" }, e.result as u8, emit as u8, nbits, bits));
+                    reqs.push_str(&format!("{}{}.{}.{}.{}.{}", if k == 0 { "" } else { "/" }, e.site, e.lp_before, e.input_pos, e.is_last as u8, e.force_flush as u8));
+                }
+                if r.events.is_empty() { reqs.push('-'); }
+                ops.push_str(&tok);
+                if r.panicked { ans.push("panic".into()); break; }
+                ans.push(format!("{}:{}:{}:{}:{}", r.ret as u8, r.consumed, if full { hex(&r.produced) } else { format!("#{}", r.produced.len()) }, reqs, r.after.digest(full)));
+            }
+        }
+        delivered_before += r.produced.len();
+    }
+    if ops.len() > 60000 { return None; }
+    Some((ops, ans.join(" ")))
+}
+
+// ---------------------------------------------------------------------------------------------
+// stages
+// ---------------------------------------------------------------------------------------------
+struct TaskOut { lines: Vec<(String, String)>, rep: Report }
+
+fn stage_plans(args: &Args, n: usize, tag: u64, c01: bool, c04: bool) -> Vec<TaskOut> {
+    let seed = args.seed;
+    let thorough = args.tier == "thorough";
+    par_tasks(n, move |i| {
+        let mut rng = Rng::new(seed ^ tag ^ ((i as u64) << 20));
+        let mut rep = Report::default();
+        let mut lines = vec![];
+        let heavy = i % 24 == 7;
+        let cfg = gen_cfg(&mut rng, heavy);
+        let maxin = max_input_for(&cfg, &mut rng, thorough);
+        let total = if heavy && cfg.lgwin >= 19 { gen_len(&mut rng, 3000) } else { gen_len(&mut rng, maxin) };
+        let style = rng.below(8);
+        let wf = c04 || rng.chance(1, 3);
+        let wm = (c04 && rng.chance(2, 3)) || rng.chance(1, 10);
+        let reqs = gen_reqs(&mut rng, total, style, wf, wm, true);
+        let sched = if rng.chance(1, 4) { OutSched::ample() } else { gen_sched(&mut rng) };
+        // tiny capacities on long inputs cost a call per byte: cap the product
+        let sched = if total > 20000 && sched.caps.iter().all(|c| *c < 64) { OutSched { caps: vec![4096, 1, 70000], ..sched } } else { sched };
+        let record = total <= 12000;
+        let ro = drive(&cfg, &reqs, &sched, record);
+        rep.count(&format!("input_style{}", style));
+        rep.count(&format!("input_len_class_{}", match total { 0 => "0", 1..=3 => "1-3", 4..=64 => "4-64", 65..=16384 => "65-16K", _ => ">16K" }));
+        rep.add("calls", ro.ncalls as u64);
+        judge_plan(&cfg, &ro, &mut rep, c01, c04);
+        if record {
+            if let Some(v) = check_contract(&ro.sess.recs) { rep.violation(&v.0, &v.1, case_json(&cfg, &ro.sess, "plan history against the contract automaton")); }
+            if total <= 3000 { if let Some(l) = corr_line(&ro.sess, true) { lines.push(l); } }
+            else if let Some(l) = corr_line(&ro.sess, false) { lines.push(l); }
+        }
+        if rep.samples.is_empty() && i < 3 { rep.sample(format!("cfg {:?} reqs {} sched {}", cfg.sets, reqs.len(), sched.desc())); }
+        TaskOut { lines, rep }
+    })
+}
+
+fn stage_pairs(args: &Args, n: usize) -> Vec<TaskOut> {
+    let seed = args.seed;
+    par_tasks(n, move |i| {
+        let mut rng = Rng::new(seed ^ 0xC05 ^ ((i as u64) << 20));
+        let mut rep = Report::default();
+        let mut lines = vec![];
+        let mut cfg = gen_cfg(&mut rng, false);
+        let total = gen_len(&mut rng, if cfg.q >= 10 { 4000 } else { 40000 });
+        let style = rng.below(8);
+        let chunk_pair = i % 2 == 1;
+        if chunk_pair {
+            // input chunking is only claimed for quality >= 2 (or catable) with size_hint set
+            if cfg.q < 2 && !cfg.catable { cfg.sets.push((167, 1)); cfg.catable = true; }
+            cfg.sets.retain(|s| s.0 != 5);
+            cfg.hint_exact = true;
+            if total == 0 { cfg.hint_exact = false; cfg.sets.push((5, 1000)); }
+        }
+        let wf = rng.chance(1, 2);
+        let wm = rng.chance(1, 4);
+        let reqs = gen_reqs(&mut rng, total, style, wf, wm, true);
+        let ref_run = drive(&cfg, &reqs, &OutSched::ample(), total <= 3000);
+        rep.evaluations += 1;
+        if let Some((sig, what)) = &ref_run.fail { rep.violation(sig, what, case_json(&cfg, &ref_run.sess, "reference run of a pair")); return TaskOut { lines, rep }; }
+        rep.nontrivial += 1;
+        let s = snap(&ref_run.sess.enc);
+        rep.count(&format!("q{}", s.q));
+        if !chunk_pair {
+            for v in 0..3 {
+                let sched = match v { 0 => OutSched { caps: vec![1], take_every: 0, take_sizes: vec![0] }, 1 => OutSched { caps: vec![0], take_every: 1, take_sizes: vec![0, 1, 16] }, _ => gen_sched(&mut rng) };
+                let sched = if total > 8000 && v < 2 { OutSched { caps: vec![if v == 0 { 1 } else { 0 }, 4096, 70000, 503], take_every: if v == 0 { 0 } else { 1 }, take_sizes: vec![0, 1, 5000] } } else { sched };
+                let other = drive(&cfg, &reqs, &sched, total <= 3000);
+                rep.count("pairs.out_slicing");
+                if let Some((sig, what)) = &other.fail { rep.violation(sig, what, case_json(&cfg, &other.sess, &sched.desc())); break; }
+                if other.sess.delivered != ref_run.sess.delivered {
+                    let d = dec::first_diff(&other.sess.delivered, &ref_run.sess.delivered);
+                    rep.violation("stream:c05:out-slicing", &format!("bytes differ between output schedules (ample: {} bytes, {}: {} bytes, first diff at {})", ref_run.sess.delivered.len(), sched.desc(), other.sess.delivered.len(), d), case_json(&cfg, &other.sess, &sched.desc()));
+                    break;
+                }
+                let (a, b) = (snap(&ref_run.sess.enc), snap(&other.sess.enc));
+                if (a.ip, a.lf, a.lp, a.lb, a.lbb, a.st, a.le, a.hint) != (b.ip, b.lf, b.lp, b.lb, b.lbb, b.st, b.le, b.hint) { rep.violation("stream:c05:final-state", "final state differs between output schedules", case_json(&cfg, &other.sess, &sched.desc())); break; }
+                if total <= 3000 && v == 2 { if let Some(l) = corr_line(&other.sess, true) { lines.push(l); } }
+            }
+        } else {
+            // re-chunk: same data between the same non-PROCESS request offsets
+            for v in 0..2 {
+                let mut re: Vec<Req> = vec![];
+                let mut acc: Vec<u8> = vec![];
+                let flush_acc = |acc: &mut Vec<u8>, re: &mut Vec<Req>, rng: &mut Rng, last_op: u8| {
+                    // cut `acc` into random PROCESS chunks, the tail goes with `last_op`
+                    let mut pos = 0usize;
+                    while acc.len() - pos > 0 && rng.chance(3, 4) {
+                        let n = (match v { 0 => rng.range(1, 4000) as usize, _ => *rng.pick(&[1usize, 7, 1000, 16384, 65536, 5]) }).min(acc.len() - pos);
+                        re.push(Req { op: OP_PROCESS, data: acc[pos..pos + n].to_vec() });
+                        pos += n;
+                        if re.len() > 600 { break; }
+                    }
+                    re.push(Req { op: last_op, data: acc[pos..].to_vec() });
+                    acc.clear();
+                };
+                for rq in &reqs {
+                    match rq.op {
+                        OP_PROCESS => acc.extend_from_slice(&rq.data),
+                        OP_METADATA => { if !acc.is_empty() { flush_acc(&mut acc, &mut re, &mut rng, OP_PROCESS); } re.push(rq.clone()); }
+                        o => { acc.extend_from_slice(&rq.data); flush_acc(&mut acc, &mut re, &mut rng, o); }
+                    }
+                }
+                let other = drive(&cfg, &re, &gen_sched(&mut rng), total <= 3000);
+                rep.count("pairs.in_chunking");
+                if let Some((sig, what)) = &other.fail { rep.violation(sig, what, case_json(&cfg, &other.sess, "re-chunked")); break; }
+                if other.sess.delivered != ref_run.sess.delivered {
+                    let d = dec::first_diff(&other.sess.delivered, &ref_run.sess.delivered);
+                    let bs = 1usize << s.b;
+                    let aligned = total % bs == 0 && total > 0;
+                    rep.violation(if aligned { "stream:c05:in-chunking:block-multiple" } else { "stream:c05:in-chunking" }, &format!("bytes differ between input chunkings at quality {} (size_hint {}), {} vs {} bytes, first diff at {}, total input {} (block {})", s.q, s.hint, ref_run.sess.delivered.len(), other.sess.delivered.len(), d, total, bs), case_json(&cfg, &other.sess, &format!("reference history: {}", ref_run.sess.history_line().chars().take(3000).collect::<String>())));
+                    break;
+                }
+            }
+        }
+        TaskOut { lines, rep }
+    })
+}
+
+fn c20_cfgs() -> Vec<Cfg> {
+    vec![simple_cfg(0, 16, false, false, 0), simple_cfg(1, 10, true, false, 0), simple_cfg(2, 10, false, true, 0), simple_cfg(5, 12, true, true, 77), simple_cfg(9, 16, false, false, 0)]
+}
+fn stage_exhaustive(args: &Args) -> Vec<TaskOut> {
+    let thorough = args.tier == "thorough";
+    let cfgs = c20_cfgs();
+    // tasks: (cfg, first symbol) with the full alphabet up to length 4; (cfg, first two symbols)
+    // with the reduced alphabet at length 5
+    let full = alphabet(true);
+    let red = alphabet(false);
+    let nfull = full.len();
+    let mut tasks: Vec<(usize, Vec<Sym>, bool)> = vec![];
+    let ncfg_full = if thorough { cfgs.len() } else { 3 };
+    for c in 0..ncfg_full { for a in 0..nfull { tasks.push((c, vec![full[a]], true)); } }
+    let ncfg_red = if thorough { cfgs.len() } else { 2 };
+    for c in 0..ncfg_red { for a in 0..red.len() { tasks.push(([0usize, 3, 2, 1, 4][c], vec![red[a]], false)); } }
+    let n = tasks.len();
+    let tasks = std::sync::Arc::new(tasks);
+    par_tasks(n, move |i| {
+        let (ci, first, is_full) = tasks[i].clone();
+        let cfgs = c20_cfgs();
+        let cfg = &cfgs[ci];
+        let alpha_syms = alphabet(is_full);
+        let depth = if is_full { 4 } else { 5 };
+        let mut rep = Report::default();
+        let mut lines = vec![];
+        let k = alpha_syms.len();
+        let rest = depth - 1;
+        let total = k.pow(rest as u32);
+        let mut cnt = [[[0u64; 2]; 4]; 6];
+        for code in 0..total {
+            let mut syms = first.clone();
+            let mut c = code;
+            for _ in 0..rest { syms.push(alpha_syms[c % k]); c /= k; }
+            let variant = code % 6;
+            let sess = run_syms(cfg, &syms, variant);
+            rep.evaluations += 1;
+            let body = &sess.recs[cfg.sets.len()..];
+            if body.iter().any(|r| matches!(r.call, Call::Stream { .. }) && r.ret && (r.consumed > 0 || !r.produced.is_empty())) { rep.nontrivial += 1; }
+            if let Some(v) = check_contract(body) {
+                rep.violation(&v.0, &v.1, case_json(cfg, &sess, &format!("{:?}", syms)));
+            }
+            for r in body {
+                if let Call::Stream { op, .. } = &r.call {
+                    let a = match alpha(&r.before) { Contract::Fresh => 0, Contract::Processing => 1, Contract::Flushing => 2, Contract::Finishing => 3, Contract::Finished => 4, Contract::Metadata(_) => 5 };
+                    cnt[a][*op as usize][r.ret as usize] += 1;
+                }
+            }
+            // completion of every request kind from the reached state (sampled 1 in 8 sequences)
+            if code % 8 == 3 && sess.dead.is_none() {
+                let mut s2 = run_syms(cfg, &syms, variant);
+                let st = snap(&s2.enc);
+                let (op, data): (u8, Vec<u8>) = match alpha(&st) {
+                    Contract::Metadata(r) => (OP_METADATA, vec![0x55; r as usize]),
+                    Contract::Flushing => (OP_FLUSH, vec![]),
+                    Contract::Finishing | Contract::Finished => (OP_FINISH, vec![]),
+                    _ => ([OP_FLUSH, OP_FINISH, OP_METADATA, OP_PROCESS][(code / 8) % 4], sym_input(1, 1, code)),
+                };
+                let cap = [1usize, 2, 4096][(code / 32) % 3];
+                rep.count("exh.completion_checked");
+                if let Some(v) = check_completion(&mut s2, op, &data, cap) { rep.violation(&v.0, &v.1, case_json(cfg, &s2, &format!("completion of op {} cap {} after {:?}", op, cap, syms))); }
+            }
+            // correspondence: maximal sequences only (prefixes are covered by them), sampled
+            if evhook::HAVE && (code % (if is_full { 16 } else { 128 }) == 5) { if let Some(l) = corr_line(&sess, true) { lines.push(l); } }
+        }
+        let names = ["Fresh", "Processing", "Flushing", "Finishing", "Finished", "Metadata"];
+        for a in 0..6 { for o in 0..4 { for r in 0..2 { if cnt[a][o][r] != 0 { rep.add(&format!("exh.{}.op{}.{}", names[a], o, if r == 1 { "ok" } else { "refused" }), cnt[a][o][r]); } } } }
+        TaskOut { lines, rep }
+    })
+}
+fn stage_random_contract(args: &Args, n: usize) -> Vec<TaskOut> {
+    let seed = args.seed;
+    par_tasks(n, move |i| {
+        let mut rng = Rng::new(seed ^ 0xC20 ^ ((i as u64) << 20));
+        let mut rep = Report::default();
+        let mut lines = vec![];
+        let cfg = gen_cfg(&mut rng, false);
+        let mut s = Session::new();
+        for (id, v) in &cfg.sets { s.set(*id, *v); }
+        let len = rng.range(6, 40) as usize;
+        let style = rng.below(8);
+        for _ in 0..len {
+            match rng.below(12) {
+                0 => { s.set(*rng.pick(&[1u32, 2, 5, 4, 167, 7]), rng.below(30) as u32); }
+                1 | 2 => { s.take(*rng.pick(&[0usize, 0, 1, 16, 1000])); }
+                _ => {
+                    // mostly contract-abiding, sometimes not
+                    let a = alpha(&snap(&s.enc));
+                    let abide = rng.chance(3, 4);
+                    let (op, n) = match a {
+                        Contract::Metadata(r) if abide => (OP_METADATA, r as usize),
+                        Contract::Flushing | Contract::Finishing | Contract::Finished if abide => (*rng.pick(&[OP_PROCESS, OP_FLUSH, OP_FINISH]), 0),
+                        _ => (*rng.pick(&[OP_PROCESS, OP_PROCESS, OP_FLUSH, OP_FINISH, OP_METADATA]), match rng.below(6) { 0 => 0, 1 => 1, 2 => rng.range(2, 40) as usize, 3 => rng.range(40, 3000) as usize, 4 => rng.range(16380, 16390) as usize, _ => rng.range(1, 300) as usize }),
+                    };
+                    let data = gen_bytes(&mut rng, n, style);
+                    let cap = *rng.pick(&[0usize, 0, 1, 1, 2, 16, 100, 503, 4096, 1 << 17]);
+                    s.stream(op, &data, cap);
+                }
+            }
+            if s.dead.is_some() { break; }
+        }
+        rep.evaluations += 1;
+        if s.recs.iter().any(|r| matches!(r.call, Call::Stream { .. }) && r.ret && (r.consumed > 0 || !r.produced.is_empty())) { rep.nontrivial += 1; }
+        if let Some(v) = check_contract(&s.recs) { rep.violation(&v.0, &v.1, case_json(&cfg, &s, "random history")); }
+        else if s.dead.is_none() {
+            // drive whatever is open to completion, then FINISH: the stream must still close and decode
+            let st = snap(&s.enc);
+            let (op, data): (u8, Vec<u8>) = match alpha(&st) { Contract::Metadata(r) => (OP_METADATA, vec![7; r as usize]), _ => (OP_FINISH, vec![]) };
+            let cap = *rng.pick(&[1usize, 3, 4096]);
+            if let Some(v) = check_completion(&mut s, op, &data, cap) { rep.violation(&v.0, &v.1, case_json(&cfg, &s, "completion after a random history")); }
+            else if op == OP_METADATA { if let Some(v) = check_completion(&mut s, OP_FINISH, &[], cap) { rep.violation(&v.0, &v.1, case_json(&cfg, &s, "FINISH after a random history")); } }
+            if s.dead.is_none() && snap(&s.enc).fin {
+                let fed: Vec<u8> = s.recs.iter().filter_map(|r| if let Call::Stream { op, data, .. } = &r.call { if *op != OP_METADATA && r.ret { Some(data[..r.consumed].to_vec()) } else { None } } else { None }).flatten().collect();
+                let lw = snap(&s.enc).lw;
+                if let Err(e) = dec::decode_both(&s.delivered, lw, &fed) { rep.violation("stream:roundtrip", &format!("after a random history incl. refused calls: {}", e), case_json(&cfg, &s, "")); }
+                else { rep.count("random.closed_and_decoded"); }
+            }
+        }
+        if let Some(l) = corr_line(&s, true) { lines.push(l); }
+        TaskOut { lines, rep }
+    })
+}
+
+fn run_corpus(rep: &mut Report, lines: &mut Vec<(String, String)>) {
+    let dir = std::path::Path::new("/verif/corpus/stream");
+    let mut files: Vec<_> = match std::fs::read_dir(dir) { Ok(d) => d.filter_map(|e| e.ok()).map(|e| e.path()).collect(), Err(_) => return };
+    files.sort();
+    for f in files {
+        let txt = std::fs::read_to_string(&f).unwrap_or_default();
+        for l in txt.lines() {
+            let l = l.trim();
+            if l.is_empty() || l.starts_with('#') { continue; }
+            let mut s = Session::new();
+            for t in l.split(' ') {
+                match Call::parse(t) {
+                    Some(Call::Set(i, v)) => { s.set(i, v); }
+                    Some(Call::Stream { op, data, cap }) => { s.stream(op, &data, cap); }
+                    Some(Call::Take(n)) => { s.take(n); }
+                    None => {}
+                }
+                if s.dead.is_some() { break; }
+            }
+            rep.evaluations += 1;
+            rep.count("corpus.histories");
+            let name = f.file_name().map(|x| x.to_string_lossy().to_string()).unwrap_or_default();
+            if let Some(p) = &s.dead {
+                rep.violation(&format!("stream:panic:{}", p.split(' ').next().unwrap_or("?")), &format!("corpus {}: {}", name, p), format!("{{\"corpus\": {}, \"history\": {}}}", jstr(&name), jstr(l)));
+            } else if let Some(v) = check_contract(&s.recs) {
+                rep.violation(&v.0, &format!("corpus {}: {}", name, v.1), format!("{{\"corpus\": {}, \"history\": {}}}", jstr(&name), jstr(l)));
+            }
+            if let Some(cl) = corr_line(&s, true) { lines.push(cl); }
+        }
+    }
+}
+
 pub fn run_cmd(args: &Args) {
-    let corr = Corr::new(&args.out);
-    let rep = Report::default();
+    install_panic_hook();
+    let thorough = args.tier == "thorough";
+    let which = args.rest.get(0).map(|s| s.as_str()).unwrap_or("all").to_string();
+    let mut corr = Corr::new(&args.out);
+    let mut rep = Report::default();
+    let mut outs: Vec<TaskOut> = vec![];
+    let mut pre_lines = vec![];
+    run_corpus(&mut rep, &mut pre_lines);
+    let scale = if thorough { 12 } else { 1 };
+    if which == "c01" || which == "all" { outs.extend(stage_plans(args, 1400 * scale, 0xC01, true, false)); }
+    if which == "c04" || which == "all" { outs.extend(stage_plans(args, 1100 * scale, 0xC04, true, true)); }
+    if which == "c05" || which == "all" { outs.extend(stage_pairs(args, 700 * scale)); }
+    if which == "c20" || which == "all" {
+        outs.extend(stage_exhaustive(args));
+        outs.extend(stage_random_contract(args, 3000 * scale));
+    }
+    for (o, a) in pre_lines { corr.case(&o, &a); }
+    for t in outs {
+        for (o, a) in t.lines { corr.case(&o, &a); }
+        rep.merge(t.rep);
+    }
+    rep.add("corr.lines", corr.n);
+    rep.add("hook.available", evhook::HAVE as u64);
     corr.finish();
     rep.write(&args.out);
 }
